@@ -483,12 +483,16 @@ func zzConnCall() {
 	g := zzFresh()
 	g.varyCallsNil = true
 	g.install()
-	ctx, cancel := context.WithCancel(context.Background())
+	// the caller may be a request handler: its context then carries the dispatcher's releaser, which only the handler
+	// itself (through Async) may release — C03 rests on it
+	rel := &releaser{ch: make(chan struct{})}
+	ctx, cancel := context.WithCancel(context.WithValue(context.Background(), asyncKey, rel))
 	g.cancelCallerCtx = cancel
 	g.callerCtx = ctx
 	zzMarshalMayFail, zzMarshalFailed = true, false
 	ac := g.c.Call(ctx, "m", "caller-supplied params")
 	zzMarshalMayFail = false
+	vAssert(!rel.released && !vIsClosed(rel.ch), "C03.only-the-handler-itself-releases-the-dispatcher")
 	vAssert(ac != nil, "C01.call-returns-handle")
 	if !g.mineReg {
 		// never registered: the handle is still private to this thread; the connection refused the call
@@ -836,12 +840,14 @@ func zzConnDispatch() {
 func zzConnNotify() {
 	g := zzFresh()
 	g.install()
-	ctx, cancel := context.WithCancel(context.Background())
+	rel := &releaser{ch: make(chan struct{})}
+	ctx, cancel := context.WithCancel(context.WithValue(context.Background(), asyncKey, rel))
 	g.cancelCallerCtx = cancel
 	g.callerCtx = ctx
 	zzMarshalMayFail = true
 	err := g.c.Notify(ctx, "notifications/progress", "caller-supplied params")
 	zzMarshalMayFail = false
+	vAssert(!rel.released && !vIsClosed(rel.ch), "C03.only-the-handler-itself-releases-the-dispatcher")
 	vAssert(g.myNotif == 0, "C05.notification-token-returned")
 	if len(g.w.msgs) == 0 {
 		vAssert(err != nil, "C05.refused-notify-reports-error")
